@@ -3,6 +3,7 @@ package c20
 import (
 	"bytes"
 	"fmt"
+	"math/big"
 	"strings"
 	"sync"
 
@@ -76,11 +77,40 @@ func mixedPair(t *rapid.T) (spec.V, spec.V) {
 	return a.Retype(), b.Retype()
 }
 
+// tieSet draws a set of numbers in which some real number is held at two
+// precisions (a float64 and its exact decimal expansion at 512 bits): the two
+// are not equal (their shortest decimal texts differ), hash differently, and
+// tie in the numeric order of the set's iteration.
+func tieSet(t *rapid.T) spec.V {
+	v := spec.V{T: spec.Set(spec.Number), St: spec.Known}
+	fs := rapid.Permutation([]float64{0.1, 0.2, 0.3, 1e-7, -0.1, 2.675, 1.1}).Draw(t, "tiefloats")
+	for _, f := range fs[:rapid.IntRange(1, 3).Draw(t, "nties")] {
+		exact := strings.TrimRight(new(big.Float).SetFloat64(f).Text('f', 1100), "0")
+		v.Elems = append(v.Elems, spec.KnownNum(spec.NFloat(f)), spec.KnownNum(spec.Num{Route: "big", Text: exact, Prec: 512}))
+	}
+	for i, n := 0, rapid.IntRange(0, 3).Draw(t, "nother"); i < n; i++ {
+		v.Elems = append(v.Elems, spec.KnownNum(gen.SmallInt(-3, 6).Draw(t, "other")))
+	}
+	return v
+}
+
 func init() {
 	facet.Register(facet.F[PureIn]{
 		Prop: "C20", Name: "purity/repeat", Quick: 40000, Thorough: 400000, Shards: 4,
 		Rule: "an operation call repeated 10 times on the same operand values, plus once on freshly rebuilt operands: all results must be RawEqual. Operands: (a) two objects/maps with >= 2 members in which a definite difference and an unknown coexist (Go map iteration order would show), nested in lists/tuples half of the time; (b) any operation on C01-style weakened operands with marks. Non-trivial = class (a), or an operand with >= 2 members and an unknown part",
 		Gen: func(t *rapid.T) PureIn {
+			if rapid.IntRange(0, 5).Draw(t, "tieclass") == 3 {
+				// (c) a set holding members that tie in the iteration order without
+				// being equal (one real number at two precisions lands in two hash
+				// buckets), reached through an operation that returns the set itself
+				set := tieSet(t)
+				if rapid.Bool().Draw(t, "viaattr") {
+					obj := spec.V{T: spec.T{K: spec.KObject}, St: spec.Known, Keys: []string{"a", "b"}, Elems: []spec.V{set, spec.KnownStr("k")}}.Retype()
+					return PureIn{C: ops.Case{Op: "GetAttr", Args: []spec.V{obj}, Attr: "a"}, Kind: "tie-set"}
+				}
+				tup := spec.V{T: spec.T{K: spec.KTuple}, St: spec.Known, Elems: []spec.V{set, spec.KnownStr("k")}}.Retype()
+				return PureIn{C: ops.Case{Op: "Index", Args: []spec.V{tup, spec.KnownNum(spec.NInt(0))}}, Kind: "tie-set"}
+			}
 			if rapid.IntRange(0, 2).Draw(t, "class") > 0 {
 				a, b := mixedPair(t)
 				if rapid.Bool().Draw(t, "nest") {
@@ -109,7 +139,7 @@ func init() {
 			if err != nil {
 				return facet.Failf("harness-build", "%v", err)
 			}
-			if in.Kind == "mixed" {
+			if in.Kind == "mixed" || in.Kind == "tie-set" {
 				c.NonTrivial()
 			} else {
 				for _, a := range in.C.Args {
